@@ -1024,7 +1024,7 @@ def check(program, rep):
     # named optional parameters not passed on (NAMELINK, DESIGN.md 9.13)
     from .. import namelink as _nl
     rep.guard("C10-R5", _nl.rule, program, rep, "C10-R5",
-              [m for m in sorted(program.modules) if m.startswith("rig.machine_control")] + [m for m in sorted(program.modules) if m.startswith("rig.routing_table")])
+              [m for m in sorted(program.modules) if m.startswith("rig.machine_control")] + [m for m in sorted(program.modules) if m.startswith("rig.routing_table")] + ["rig.place_and_route.routing_tree"])
     return finish(rep, program, EXPLANATION, NOT_DECIDED,
                   trusted=["struct format semantics", "documented command "
                            "word layout (count<<16 | app_id<<8 | op)"])
